@@ -202,6 +202,9 @@ func genMixedRequest(r *core.Rand, id int, limit int, allowFaults bool) ReqSpec 
 	if sp.Proto == "http" && (sp.Codec == "json" || sp.Codec == "proto") && sp.Handler.Code == 0 && sp.Fault.Kind == "" && r.Chance(1, 4) {
 		sp.Accept = "other"
 	}
+	if sp.Proto == "http" && r.Chance(1, 5) {
+		sp.AcceptGzip = true
+	}
 	// a Content-Type with a parameter: the codec table is looked up with a
 	// string it does not hold
 	if sp.Proto == "http" && (sp.Codec == "json" || sp.Codec == "proto") && sp.Fault.Kind == "" && !sp.PingPong && r.Chance(1, 8) {
